@@ -107,6 +107,16 @@ EncSVInt(x) == EncVInt(ZigZag(x))
 LenBytes(n, p) ==
   IF p <= 2 THEN (IF n < 0 \/ n > 65535 THEN BnErr ELSE <<n \div 256, n % 256>>)
   ELSE IF n < 0 THEN <<255, 255, 255, 255>> ELSE TC(FromInt(n), 4)
+\* Size facts of the two framings (stated here because values of 65536 elements / bytes are too big to be
+\* enumerated as TLC values): a count or a length n has a representation iff SizeEncodable(n, p); beyond that Enc is
+\* undefined and Marshal must refuse - a length written modulo 2^16 denotes another value.
+ShortMax == 65535
+SizeWidth(p) == IF p <= 2 THEN 2 ELSE 4
+SizeEncodable(n, p) == n >= 0 /\ (p > 2 \/ n <= ShortMax)
+ASSUME \A p \in 1 .. 5 : \A n \in {0, 1, 255, 256, 65535, 65536, 65537, 70000, 131072} :
+         /\ (LenBytes(n, p) # BnErr) = SizeEncodable(n, p)
+         /\ (SizeEncodable(n, p) => Len(LenBytes(n, p)) = SizeWidth(p))
+ASSUME LenBytes(65535, 2) = <<255, 255>> /\ LenBytes(65536, 2) = BnErr /\ LenBytes(65536, 3) = <<0, 1, 0, 0>> /\ LenBytes(70000, 4) = <<0, 1, 17, 112>>
 \* an encoded element inside a list / set / map: protocol <= 2 has no representation for null
 Framed(r, p) ==
   IF r.st = "err" THEN BnErr
